@@ -623,7 +623,12 @@ func (dsc *dataStoreCommand) bitfieldWrite(keyName string, ops []*bitfieldOp) (o
 			// detect underflow and overflow
 			var outOfBounds bool
 			if op.signed {
-				outOfBounds = isSignedSumOverflow(n, op.value, bits)
+				if op.op == BF_INCRBY {
+					outOfBounds = isSignedSumOverflow(n, op.value, bits)
+				} else {
+					// SET: only the given value has to fit
+					outOfBounds = isSignedSumOverflow(0, op.value, bits)
+				}
 			} else {
 				// unsigned underflows when it goes negative
 				outOfBounds = newValue < 0 || isUnsignedOverflow(newValue, bits)
@@ -636,7 +641,8 @@ func (dsc *dataStoreCommand) bitfieldWrite(keyName string, ops []*bitfieldOp) (o
 						newValue = signExtend(newValue, bits)
 					}
 				case OFLOW_SAT:
-					newValue = saturateValue(op.signed, newValue, bits)
+					// the sign of the given value tells the direction (the sum may have wrapped)
+					newValue = saturateValue(op.signed, op.value, bits)
 				case OFLOW_FAIL:
 					results = append(results, nil)
 					continue
